@@ -3,6 +3,8 @@ from props import parser_ob
 def obligations():
     parser_ob.ACCEPT_KEYS = {'panic', 'hang'}
     obs = parser_ob.obligations_seq('O4.2') + parser_ob.obligations_templates('O4.2')
+    from props import selftest_ob
+    obs += selftest_ob.parser_obligations('O4.0')
     try:
         from props import e1_obs
         obs += e1_obs.c04_obligations()
